@@ -1,6 +1,7 @@
 package rules
 
 import (
+	"go/token"
 	"fmt"
 	"strings"
 
@@ -243,11 +244,95 @@ func c04VacuumPurge(c *Ctx) {
 			commits = append(commits, call)
 		}
 	}
+	// The markers are swept by RemoveTombstones(cutoff), which keeps ts >= cutoff: the marker time M
+	// has to be below the cutoff handed to it on every path. (The zero time.Time, which this rule
+	// accepted at first, is not: its UnixNano wraps to a value in 1754.) M is a package-level time
+	// that nothing writes after init; the cutoff is "after M" where it was tested so
+	// (cutoff.After(M) on its true side) or made so (M.Add(positive constant)), followed through phis.
 	for i, t := range tombs {
 		when := t.Common().Args[2]
-		c.R.Cond(an.IsZeroValue(when), rule, fmt.Sprintf("%s: Tombstone #%d uses the zero time", name, i+1), c.P.Pos(t.Pos()),
-			"a tombstone stamped with the zero time is older than every cutoff, so the RemoveTombstones of this call removes it",
-			"vacuum stamps its tombstones with a time that RemoveTombstones(cutoff) may keep (it keeps ts >= cutoff): the committed version then carries kv tombstones; after a crash before the parent is retired every later open must merge them with the parent's rows and the SQL-layer merge panics (\"not expecting tombstones\")")
+		var marker *ssa.Global
+		if ld, ok := when.(*ssa.UnOp); ok && ld.Op == token.MUL {
+			if g, ok := ld.X.(*ssa.Global); ok {
+				marker = g
+			}
+		}
+		good := false
+		why := "vacuum stamps its markers with " + when.String() + ", not with a package-level time that the cutoff is kept above"
+		if marker != nil {
+			written := false
+			for _, f := range c.P.RepoFuncs(an.LibraryPkg) {
+				if f.Name() == "init" || strings.HasPrefix(f.Name(), "init#") {
+					continue
+				}
+				for _, b := range f.Blocks {
+					for _, in := range b.Instrs {
+						if st, ok := in.(*ssa.Store); ok && st.Addr == ssa.Value(marker) {
+							written = true
+						}
+					}
+				}
+			}
+			isM := func(v ssa.Value) bool {
+				ld, ok := v.(*ssa.UnOp)
+				return ok && ld.Op == token.MUL && ld.X == ssa.Value(marker)
+			}
+			timeCall := func(in ssa.Instruction, name string) (*ssa.Call, bool) {
+				cl, ok := in.(*ssa.Call)
+				if !ok {
+					return nil, false
+				}
+				f := cl.Call.StaticCallee()
+				return cl, f != nil && an.PkgPathOf(f) == "time" && f.Name() == name && len(cl.Call.Args) == 2
+			}
+			h := an.THooks{}
+			h.Instr = func(in ssa.Instruction, st0 an.TState) an.TState {
+				st := st0.(authState)
+				if cl, ok := timeCall(in, "Add"); ok && isM(cl.Call.Args[0]) {
+					if k, isK := constInt(cl.Call.Args[1]); isK && k > 0 {
+						st = st.with(cl)
+					}
+				}
+				if cl, ok := in.(ssa.CallInstruction); ok && an.CalleeIs(cl, kvPkg, "DB", "RemoveTombstones") {
+					if !st.carries(cl.Common().Args[2]) {
+						st.helpers = "unsafe"
+					}
+				}
+				return st
+			}
+			h.Phi = func(ph *ssa.Phi, incoming ssa.Value, st0 an.TState) an.TState {
+				st := st0.(authState)
+				if st.carries(incoming) {
+					return st.with(ph)
+				}
+				return st.without(ph)
+			}
+			h.Branch = func(iff *ssa.If, side bool, st0 an.TState) an.TState {
+				st := st0.(authState)
+				cond, neg := an.StripNot(iff.Cond)
+				if in, ok := cond.(ssa.Instruction); ok {
+					if cl, ok := timeCall(in, "After"); ok && isM(cl.Call.Args[1]) && side != neg {
+						st = st.with(cl.Call.Args[0])
+					}
+					if cl, ok := timeCall(in, "Before"); ok && isM(cl.Call.Args[0]) && side != neg {
+						st = st.with(cl.Call.Args[1])
+					}
+				}
+				return st
+			}
+			good = !written
+			if written {
+				why = "the marker time " + marker.Name() + " is assigned outside init"
+			}
+			for _, ex := range an.WalkTypestate(fn, authState{}, h, sc) {
+				if ex.St.(authState).helpers == "unsafe" {
+					good = false
+					why = "RemoveTombstones can be reached with a cutoff that was neither tested to be after " + marker.Name() + " nor made so: it keeps ts >= cutoff, so vacuum's own markers stay in the committed version, hide their keys for good and win against every later INSERT"
+				}
+			}
+		}
+		c.R.Cond(good, rule, fmt.Sprintf("%s: Tombstone #%d uses a time below every cutoff", name, i+1), c.P.Pos(t.Pos()),
+			"the markers carry a fixed package-level time and the cutoff handed to RemoveTombstones is after it on every path", why)
 	}
 	if len(tombs) == 0 {
 		c.R.OK(rule, name+": no tombstones created", c.P.Pos(fn.Pos()), "nothing to purge")
